@@ -631,7 +631,7 @@ def _(ctx):
     ctx.state = State(sub.state.store, st.guard, st.facts)
     summary = ('cmp', a, b, it.abstract(ctx.state, r))
     it.events.append({'kind': 'sort_by', 'fn': ctx.frame.f['path'] if ctx.frame else None, 'line': ctx.line,
-                      'whole': whole, 'cmp': summary, 'seq': seq})
+                      'whole': whole, 'cmp': summary, 'seq': seq, 'facts': st.facts})
     if not whole:
         raise Unsupported('sort_by on a sub-slice')
     it.write(ctx.state, s.root, s.path, SeqSorted(seq, summary))
